@@ -22,6 +22,12 @@ pub enum Op {
     Print,
     /// Print, parse the text back (under a new hash seed), compare, carry on with the parsed value.
     Reparse { seed: u64 },
+    /// Another Summary object holding `other` is overwritten with clone_from();
+    /// carry on with it.
+    CloneFrom { seed: u64, other: Vec<(usize, Val)> },
+    /// Like Reparse, but the text travels through a SummaryStream (the second
+    /// public parsing route) in the given chunks.
+    ReparseViaStream { seed: u64, chunks: Vec<usize> },
 }
 
 #[derive(Clone, Debug, Serialize, Deserialize)]
@@ -54,10 +60,24 @@ fn gen_free_history(rng: &mut Rng) -> Hist {
                 line: gen_text(rng, ascii, false),
             });
         } else if r < push_rate + meta_rate {
-            ops.push(match rng.below(3) {
+            ops.push(match rng.below(5) {
                 0 => Op::Clone { seed: rng.next_u64() },
                 1 => Op::Print,
-                _ => Op::Reparse { seed: rng.next_u64() },
+                2 => Op::Reparse { seed: rng.next_u64() },
+                3 => {
+                    let k = rng.urange(0, 5);
+                    let other = (0..k)
+                        .map(|_| {
+                            let v = rng.usize_below(23);
+                            (v, gen_val(rng, v, ascii, false))
+                        })
+                        .collect();
+                    Op::CloneFrom { seed: rng.next_u64(), other }
+                }
+                _ => Op::ReparseViaStream {
+                    seed: rng.next_u64(),
+                    chunks: (0..rng.urange(0, 4)).map(|_| rng.urange(1, 200)).collect(),
+                },
             });
         } else {
             let var = if rng.chance(1, 2) {
@@ -239,6 +259,71 @@ fn run_history(h: &Hist, hi: usize, ctx: &mut Ctx) -> Result<Final, Violation> {
                     got,
                     want
                 );
+            }
+            Op::CloneFrom { seed, other } => {
+                ctx.step("clone_from", other.len() as u64, 0);
+                ctx.probe("clone_from-onto-another-object");
+                set_hash_seed(*seed);
+                let mut target = Summary::new();
+                for (v, val) in other {
+                    if *v < 23 {
+                        let ok = matches!(
+                            (VARS[*v].kind, val),
+                            (Kind::S, Val::S(_)) | (Kind::I, Val::I(_)) | (Kind::A, Val::A(_))
+                        );
+                        if ok {
+                            real_set(&mut target, *v, val);
+                        }
+                    }
+                }
+                target.clone_from(&sum);
+                sum = target;
+            }
+            Op::ReparseViaStream { seed, chunks } => {
+                ctx.step("reparse-via-stream", chunks.len() as u64, 0);
+                let lists_nonempty = model.values().all(|v| !matches!(v, Val::A(a) if a.is_empty()));
+                if is_complete(&model) && lists_nonempty {
+                    ctx.probe("reparse-via-stream-of-complete-entry");
+                    let text = format!("{}\n", sum).into_bytes();
+                    set_hash_seed(*seed);
+                    let mut st = pkgsrc::summary::SummaryStream::new();
+                    let mut pos = 0usize;
+                    use std::io::Write as _;
+                    for c in chunks.iter().cloned().chain(std::iter::once(usize::MAX)) {
+                        let c = c.min(text.len() - pos);
+                        if let Err(e) = st.write(&text[pos..pos + c]) {
+                            fail!(
+                                "reparse-failed",
+                                "history {} op {}: the printed complete entry does not pass through SummaryStream: {}",
+                                hi,
+                                oi,
+                                e
+                            );
+                        }
+                        pos += c;
+                        if pos >= text.len() {
+                            break;
+                        }
+                    }
+                    ensure!(
+                        st.entries().len() == 1,
+                        "reparse-failed",
+                        "history {} op {}: one printed entry gave {} entries through SummaryStream",
+                        hi,
+                        oi,
+                        st.entries().len()
+                    );
+                    if let Err(e) = compare(&st.entries()[0], &model) {
+                        fail!(
+                            "reparse-mismatch",
+                            "history {} op {}: print then parse through SummaryStream changed a value: {}",
+                            hi,
+                            oi,
+                            e
+                        );
+                    }
+                    sum = st.entries()[0].clone();
+                }
             }
             Op::Reparse { seed } => {
                 ctx.step("reparse", 0, 0);
@@ -445,6 +530,8 @@ impl Property for C07 {
                     },
                     Op::Push { var, line } if line.len() > 1 => vec![Op::Push { var: *var, line: "p".into() }],
                     Op::Reparse { .. } => vec![Op::Print],
+                    Op::ReparseViaStream { seed, .. } => vec![Op::Reparse { seed: *seed }],
+                    Op::CloneFrom { seed, other } if !other.is_empty() => vec![Op::CloneFrom { seed: *seed, other: vec![] }],
                     _ => vec![],
                 };
                 for n in simpler {
@@ -498,6 +585,8 @@ impl Property for C07 {
             "reparse-of-complete-entry",
             "equivalent-history-pair",
             "internal-order-differs-between-histories",
+            "clone_from-onto-another-object",
+            "reparse-via-stream-of-complete-entry",
         ]
     }
 }
